@@ -107,3 +107,59 @@ func TestVerifConcurrent(t *testing.T) {
 	lib.CountN("concurrent:signatures", int(nsig))
 	lib.CaseS("concurrent", "ed25519+ed448")
 }
+
+// TestVerifReturnedSlices: Public() and Seed() of Ed25519 / Ed448 private
+// keys return byte slices; they are the caller's.  Overwriting them must not
+// change the private key: the public key it reports and the (deterministic,
+// RFC 8032) signatures it produces stay what they were.
+func TestVerifReturnedSlices(t *testing.T) {
+	const mon = "TestVerifReturnedSlices"
+	lib.Mandatory("returned-slices:histories")
+	for i := 0; i < lib.Scale(8, 200); i++ {
+		r := lib.NewRng("c05/returned-slices", i)
+		msg := r.Bytes(1 + r.Intn(60))
+		{
+			sk := ed25519.NewKeyFromSeed(r.Bytes(32))
+			sig0 := ed25519.Sign(sk, msg)
+			pub := sk.Public().(ed25519.PublicKey)
+			keep := lib.Clone(pub)
+			for j := range pub {
+				pub[j] = 0xEE
+			}
+			sd := sk.Seed()
+			for j := range sd {
+				sd[j] = 0x11
+			}
+			sig1 := ed25519.Sign(sk, msg)
+			now := sk.Public().(ed25519.PublicKey)
+			lib.Count("returned-slices:histories")
+			if !lib.Eq(sig0, sig1) || !lib.Eq(now, keep) || !ed25519.Verify(ed25519.PublicKey(keep), msg, sig1) {
+				lib.Violation("C05:signature-changes-after-writing-to-returned-slice:ed25519", mon,
+					lib.D("msg", msg, "sig_before", sig0, "sig_after", sig1, "public_before", keep, "public_after", []byte(now)))
+			}
+		}
+		{
+			sk := ed448.NewKeyFromSeed(r.Bytes(57))
+			ctx := string(r.Bytes(r.Intn(4)))
+			sig0 := ed448.Sign(sk, msg, ctx)
+			ph0 := ed448.SignPh(sk, msg, ctx)
+			pub := sk.Public().(ed448.PublicKey)
+			keep := lib.Clone(pub)
+			for j := range pub {
+				pub[j] = 0xEE
+			}
+			sd := sk.Seed()
+			for j := range sd {
+				sd[j] = 0x11
+			}
+			sig1 := ed448.Sign(sk, msg, ctx)
+			ph1 := ed448.SignPh(sk, msg, ctx)
+			now := sk.Public().(ed448.PublicKey)
+			lib.Count("returned-slices:histories")
+			if !lib.Eq(sig0, sig1) || !lib.Eq(ph0, ph1) || !lib.Eq(now, keep) || !ed448.Verify(ed448.PublicKey(keep), msg, sig1, ctx) {
+				lib.Violation("C05:signature-changes-after-writing-to-returned-slice:ed448", mon,
+					lib.D("msg", msg, "ctx", []byte(ctx), "sig_before", sig0, "sig_after", sig1, "public_before", keep, "public_after", []byte(now)))
+			}
+		}
+	}
+}
